@@ -143,7 +143,7 @@ theorem cleanWrite (hR : 0 < R) {seen : List Nat} {w1 wE : World} (hinv : DInv R
         refine ⟨hs.wf, ?_, ?_, ?_, ?_, ?_, ?_, ?_⟩
         · rw [hself]; exact hs.stamp.trans hsnap.stamp.symm
         · rw [hself]; exact hs.changed.trans hsnap.changed.symm
-        · rw [hself]; exact hs.ovr.trans hsnap.ovr.symm
+        · rw [hself]; intro _; exact (hs.ovr hcurfail').trans (hsnap.ovr hcurfail').symm
         · rw [hself]; left; exact hsfail.trans hfail.symm
         · rw [hself]; intro _
           exact (hs.gen hcurfail').trans (hsnap.gen hcurfail').symm
@@ -167,7 +167,7 @@ theorem cleanWrite (hR : 0 < R) {seen : List Nat} {w1 wE : World} (hinv : DInv R
             have hg' : r.isGenerated = true := by
               rw [← hg]; exact (hsnap.gen hcurfail').trans (hs.gen hcurfail').symm
             have ho' : r.isOverride = false := by
-              rw [← ho]; exact hsnap.ovr.trans hs.ovr.symm
+              rw [← ho]; exact (hsnap.ovr hcurfail').trans (hs.ovr hcurfail').symm
             have := hrows hg' ho' row hrow ht
             rw [e1, ← e2]
             exact this
@@ -196,7 +196,7 @@ theorem cleanWrite (hR : 0 < R) {seen : List Nat} {w1 wE : World} (hinv : DInv R
       by_cases hzf : z = f
       · subst hzf
         rw [hself] at hz ⊢
-        exact .inr ⟨hfail, .inl (by rw [readStamp_congr _ hfs]; exact hst)⟩
+        exact .inr (.inr ⟨hfail, by rw [readStamp_congr _ hfs]; exact hst⟩)
       · rw [hne z hzf] at hz ⊢
         rw [readStamp_congr _ hfs]
         rw [existsF_congr _ hfs] at hex
@@ -215,18 +215,18 @@ theorem unfailWrite {seen : List Nat} {w : World} (hinv : DInv R cyc w) (f : Nat
     (hsnap : SnapRel R cyc w f r) (hfail : r.failed = none) (hch : r.changed = some ch)
     (hck : isCheckedR r R = false) (hst : r.stamp = some old) (hne : old ≠ readStamp w f)
     (hmiss : existsF w f = false) (hseen : f ∉ seen) (hp2 : f ∈ cyc → ch ≠ R) :
-    DStep R cyc seen w (setRec w f { r with isGenerated := false, failed := some 0 }) ∧
-    DInv R cyc (setRec w f { r with isGenerated := false, failed := some 0 }) := by
+    DStep R cyc seen w (setRec w f { r with isGenerated := false, isOverride := false, failed := some 0 }) ∧
+    DInv R cyc (setRec w f { r with isGenerated := false, isOverride := false, failed := some 0 }) := by
   have hcur_ch : (getRec w R f).changed = some ch := by rw [← hsnap.changed]; exact hch
-  have hself : getRec (setRec w f { r with isGenerated := false, failed := some 0 }) R f =
-      { r with isGenerated := false, failed := some 0 } := by
+  have hself : getRec (setRec w f { r with isGenerated := false, isOverride := false, failed := some 0 }) R f =
+      { r with isGenerated := false, isOverride := false, failed := some 0 } := by
     apply getRec_setRec_self
     intro h0
     subst h0
     have := getRec_changed_always hinv.wf
     rw [hcur_ch] at this
     simpa [hch] using this
-  have hnez : ∀ z, z ≠ f → getRec (setRec w f { r with isGenerated := false, failed := some 0 }) R z = getRec w R z :=
+  have hnez : ∀ z, z ≠ f → getRec (setRec w f { r with isGenerated := false, isOverride := false, failed := some 0 }) R z = getRec w R z :=
     fun z hz => getRec_setRec_ne _ hz
   have hstne : r.stamp ≠ some (readStamp w f) := by
     rw [hst]; intro e; exact hne (Option.some.inj e)
@@ -247,14 +247,14 @@ theorem unfailWrite {seen : List Nat} {w : World} (hinv : DInv R cyc w) (f : Nat
     · left; rw [← h]; exact hfail
     · right; exact h.2.1
   have hsettled : ∀ z, Settled R cyc w z →
-      Settled R cyc (setRec w f { r with isGenerated := false, failed := some 0 }) z := by
+      Settled R cyc (setRec w f { r with isGenerated := false, isOverride := false, failed := some 0 }) z := by
     intro z hz
     by_cases hzf : z = f
     · subst hzf; exact absurd hz.1 hnotV
     · unfold Settled V0 at hz ⊢
       rw [hnez z hzf]
       exact hz
-  have hchanged : ∀ z, (getRec (setRec w f { r with isGenerated := false, failed := some 0 }) R z).changed =
+  have hchanged : ∀ z, (getRec (setRec w f { r with isGenerated := false, isOverride := false, failed := some 0 }) R z).changed =
       (getRec w R z).changed := by
     intro z
     by_cases hzf : z = f
@@ -264,7 +264,7 @@ theorem unfailWrite {seen : List Nat} {w : World} (hinv : DInv R cyc w) (f : Nat
   · intro z
     by_cases hzf : z = f
     · subst hzf
-      rw [hself, isFailedR_zero (r := { r with isGenerated := false, failed := some 0 }) rfl]
+      rw [hself, isFailedR_zero (r := { r with isGenerated := false, isOverride := false, failed := some 0 }) rfl]
       rcases hcurfail with h | h
       · rw [isFailedR_none h]
       · rw [isFailedR_zero h]
@@ -278,7 +278,7 @@ theorem unfailWrite {seen : List Nat} {w : World} (hinv : DInv R cyc w) (f : Nat
       refine ⟨hs.wf, ?_, ?_, ?_, ?_, ?_, ?_, ?_⟩
       · rw [hself]; exact hs.stamp.trans hsnap.stamp.symm
       · rw [hself]; exact hs.changed.trans hsnap.changed.symm
-      · rw [hself]; exact hs.ovr.trans hsnap.ovr.symm
+      · rw [hself]; intro h; cases h
       · rw [hself]
         cases hsf : s.failed with
         | none =>
